@@ -435,23 +435,8 @@ def run(ctx):
 
 
 def _verdict(run, rule, fn, construct, r, m):
-    loc = m.loc(fn, fn.node)
-    if r["verdict"] == "equivalent":
-        run.ok(rule, fn.qualname, construct,
-               "decision table equals the reference on all %d joint rows "
-               "(%d live paths, %d reference paths)"
-               % (r["rows"], r["live_paths"], r["ref_paths"]), loc=loc)
-    elif r["verdict"] == "violation":
-        run.fail(rule, fn.qualname, construct,
-                 "outcome differs from the reference under a valuation the "
-                 "reference knows: live %s, reference %s"
-                 % (r["witness"]["live"], r["witness"]["reference"]),
-                 loc=loc, witness=r["witness"])
-    else:
-        run.soft_error("%s: %s consults a predicate outside the reference "
-                       "vocabulary: %s" % (rule, fn.qualname, r["atoms"]))
-
-
+    from rules.common import verdict
+    verdict(run, rule, fn, construct, r, m)
 def _closed_under_lower(dfa, ab):
     """For every accepted word, the word with each ASCII upper-case letter
     replaced by its lower-case letter is accepted too."""
